@@ -1,23 +1,12 @@
 import Driver.Pure
 open Driver
 
-/-- one line in, one line out -/
-def step (line : String) : String :=
-  let toks := (line.trimAscii.toString.splitOn " ").filter (· ≠ "")
-  match pureHandler toks with
-  | some out => out
-  | none => "bad-op"
-
-partial def loop (hin hout : IO.FS.Stream) : IO Unit := do
-  let line ← hin.getLine
-  if line.isEmpty then return ()
-  hout.putStrLn (step line)
-  hout.flush
-  loop hin hout
-
-def main (_args : List String) : IO UInt32 := do
-  let hin ← IO.getStdin
-  let hout ← IO.getStdout
-  loop hin hout
-  hout.flush
+/-
+  ibxdrv [mode]   — one model area per mode, each with its own state; one line in, one line out.
+  Modes are registered here (one line each).
+-/
+def main (args : List String) : IO UInt32 := do
+  match args with
+  | [] | ["pure"] => runLoop (fun (_ : Unit) toks => ((), (pureHandler toks).getD "bad-op")) ()
+  | _ => IO.eprintln s!"unknown mode {args}"; return 2
   return 0
